@@ -55,7 +55,7 @@ def landscaper_history(draw, max_ops=8):
         if op == "set":
             # the user fixes a parameter AFTER construction (attribute assignment or scikit-learn's set_params), possibly between a fit
             # and a transform; values are chosen off the data lattice so that they cannot coincide with a learned bound
-            what = draw(st.sampled_from(["start", "stop", "both", "num_steps", "flatten"]))
+            what = draw(st.sampled_from(["start", "stop", "both", "num_steps", "flatten", "freeze_start", "freeze_stop", "freeze_both"]))
             case["ops"].append({"op": "set", "what": what, "via": draw(st.sampled_from(["attr", "set_params"])),
                                 "start": draw(st.sampled_from([-1.25, -7.75, 0.625])), "stop": draw(st.sampled_from([33.5, 140.25, 61.125])),
                                 "num_steps": draw(st.sampled_from([6, 13, 40])), "flatten": draw(st.booleans())})
@@ -117,6 +117,15 @@ def run_landscaper(case, ctx):
                 new["start"] = op["start"]
             if op["what"] in ("stop", "both"):
                 new["stop"] = op["stop"]
+            if op["what"].startswith("freeze"):
+                # the user assigns the PRESENT value (pl.stop = pl.stop, set_params(**get_params())): from now on it is user-fixed,
+                # although it equals what the last fit learned
+                if op["what"] in ("freeze_start", "freeze_both"):
+                    new["start"] = est.start
+                if op["what"] in ("freeze_stop", "freeze_both"):
+                    new["stop"] = est.stop
+                if any(v is None for v in new.values()):
+                    ctx.skip("freeze before any fit (shrinker)")
             if op["what"] == "num_steps":
                 new["num_steps"] = op["num_steps"]
             if op["what"] == "flatten":
@@ -256,7 +265,7 @@ def landscaper_machine(record):
             self._call(op, X)
 
         @precondition(lambda self: self.alive())
-        @rule(what=st.sampled_from(["start", "stop", "both", "num_steps", "flatten"]), via=st.sampled_from(["attr", "set_params"]),
+        @rule(what=st.sampled_from(["start", "stop", "both", "num_steps", "flatten", "freeze_start", "freeze_stop", "freeze_both"]), via=st.sampled_from(["attr", "set_params"]),
               start=st.sampled_from([-1.25, -7.75, 0.625]), stop=st.sampled_from([33.5, 140.25, 61.125]), num_steps=st.sampled_from([6, 13, 40]), flatten=st.booleans())
         def set_parameter(self, what, via, start, stop, num_steps, flatten):
             self.case["ops"].append({"op": "set", "what": what, "via": via, "start": start, "stop": stop, "num_steps": num_steps, "flatten": flatten})
@@ -265,6 +274,10 @@ def landscaper_machine(record):
                 new["start"] = start
             if what in ("stop", "both"):
                 new["stop"] = stop
+            if what in ("freeze_start", "freeze_both"):
+                new["start"] = self.est.start
+            if what in ("freeze_stop", "freeze_both"):
+                new["stop"] = self.est.stop
             if what == "num_steps":
                 new["num_steps"] = num_steps
             if what == "flatten":
@@ -456,7 +469,7 @@ def VALID_DEFAULT(case):
         else:
             for op in case["ops"]:
                 if op["op"] == "set":
-                    if op["what"] not in ("start", "stop", "both", "num_steps", "flatten") or op["via"] not in ("attr", "set_params") or not op["num_steps"] >= 2 \
+                    if op["what"] not in ("start", "stop", "both", "num_steps", "flatten", "freeze_start", "freeze_stop", "freeze_both") or op["via"] not in ("attr", "set_params") or not op["num_steps"] >= 2 \
                             or op["start"] not in (-1.25, -7.75, 0.625) or op["stop"] not in (33.5, 140.25, 61.125):
                         return False
                     continue
